@@ -84,7 +84,7 @@ def _group_func(ctx: Ctx) -> Func:
     """Acl.group with statement-level list comprehensions written out as loops (same elements, same order)."""
     from .normalise import normalised
 
-    return normalised(ctx, ctx.func("Acl.group"), "decomp")
+    return normalised(ctx, ctx.func("Acl.group"), "valuecalls,decomp")
 
 
 def r15_1(ctx: Ctx, rep: Report) -> None:
@@ -101,7 +101,19 @@ def r15_1(ctx: Ctx, rep: Report) -> None:
     for n in own_nodes(flat[0].ast):
         if isinstance(n, ast.Call) and isinstance(n.func, ast.Attribute) and n.func.attr in ("append", "extend"):
             flat_acc = src(n.func.value)
-    bucket = [l for l in loops if flat_acc and src(l.ast.iter) == flat_acc]
+    from .common import single_env
+
+    senv = single_env(g.node)  # the flattened list may travel through a temporary (an inlined helper's parameter)
+
+    def _alias(e: ast.AST) -> str:
+        for _ in range(4):
+            if isinstance(e, ast.Name) and e.id in senv and isinstance(senv[e.id], ast.Name):
+                e = senv[e.id]
+            else:
+                break
+        return src(e)
+
+    bucket = [l for l in loops if flat_acc and _alias(l.ast.iter) == flat_acc]
     rep.require(bool(bucket), "Acl.group: bucketing loop over the flattened list vanished")
     linear_loop(ctx, rep, g, bucket[0], "bucket")
     ug = ctx.func("Acl._ungroup")
@@ -191,7 +203,26 @@ def r15_2(ctx: Ctx, rep: Report) -> None:  # noqa: C901
     else:
         rep.violation("Acl.group", snippet(lit_store.ast), "a second block with the same heading overwrites the bucket of the first: its entries vanish", where(g, lit_store.ast), inp="two blocks with the identical heading remark")
     # build loop: every non-empty bucket -> AceGroup(items=bucket) appended, in dict order
-    builds = [n for n in cfg.live if n.kind == "for" and dict_name in src(n.ast.iter)]
+    from .common import single_env
+
+    senv2 = single_env(g.node)
+
+    def _names_dict(it: ast.AST) -> bool:
+        """The loop iterates the bucket dict itself or a local that is bound once to it (an inlined helper's result)."""
+        for x in ast.walk(it):
+            if isinstance(x, ast.Name):
+                e = x
+                for _ in range(4):
+                    if e.id == dict_name:
+                        return True
+                    nxt = senv2.get(e.id)
+                    if isinstance(nxt, ast.Name):
+                        e = nxt
+                    else:
+                        break
+        return False
+
+    builds = [n for n in cfg.live if n.kind == "for" and _names_dict(n.ast.iter)]
     rep.instance()
     if not builds:
         rep.violation("Acl.group", f"for ... in {dict_name}.items()", "the buckets are never turned into groups", where(g))
@@ -240,14 +271,20 @@ def adoption_rule(ctx: Ctx, rep: Report, rid: Optional[str] = None) -> None:
         rep.rule(rid)
     rep.instance()
     s = ctx.func("AceGroup.items.setter")
-    scfg = ctx.cfg(s)
-    loops = [n for n in scfg.live if n.kind == "for"]
+    from .common import per_item_unit
+
+    unit = per_item_unit(ctx, s)
     adopted = False
-    if loops:
-        var = src(loops[0].ast.target)
-        for path in loop_body_paths(scfg, loops[0]):
+    if unit is not None:
+        uf, var, paths, _anchor, is_helper = unit
+        for path in paths:
             atoms = [(n.ast, lab == "T") for n, lab in path if n.kind == "cond" and lab in ("T", "F")]
             if any("isinstance" in src(t) and "Ace" in src(t) and tr for t, tr in atoms):
+                if is_helper:
+                    # the helper hands the very object back
+                    rets = [n.ast for n, _ in path if n.kind == "stmt" and isinstance(n.ast, ast.Return)]
+                    adopted = len(rets) == 1 and rets[0].value is not None and src(rets[0].value) == var
+                    continue
                 pl = []
                 for node, lab in path:
                     if node.kind == "stmt" and node.ast is not None:
@@ -400,8 +437,11 @@ def r15_6(ctx: Ctx, rep: Report) -> None:
             from .common import _SubstMany, bind_call, callee_of_self_call, clone
 
             m = callee_of_self_call(ctx, f, e)
+            if m is None and isinstance(e.func, ast.Name):
+                # a local function defined inside tcam_count
+                m = next((h_ for h_ in ctx.prog.funcs if h_.parent is f and h_.name == e.func.id), None)
             if m is not None:
-                binding = bind_call(m, e, bound=True)
+                binding = bind_call(m, e, bound=m.parent is None)
                 rets = [n for n in own_nodes(m.node) if isinstance(n, ast.Return)]
                 if binding is not None and rets and not (set(binding) & {n.id for n in own_nodes(m.node) if isinstance(n, ast.Name) and isinstance(n.ctx, ast.Store)}):
                     return all(r.value is not None and side_ok(_SubstMany(binding).visit(clone(r.value)), depth + 1) for r in rets)
